@@ -3,6 +3,8 @@ CONSTANTS
   Blocks = {}
   MathNames = {"sqrt", "exp", "log", "floor", "pi"}
   ResidChoices = {TRUE, FALSE}
+  MaxGenerations = 2
+  MaxGenerations = 2
   AsFound_KUndefined = FALSE
 POSTCONDITION AllConsumed
 CHECK_DEADLOCK FALSE
